@@ -200,3 +200,56 @@ def run_returns(rep, ctx, anchor, rule="R1ret"):
                 "%s returns, at %s, a value that is not derived from the transcript although its other returns are: "
                 "on that path the challenge is fixed in advance" % (short(bid), bad), bad or b.span)
     return n
+
+
+# ---------------------------------------------------------------------------------------------------------
+# R7c: transcript operations act on the caller's sponge, not on a copy of it
+def run_sponge_identity(rep, ctx, anchor, rule="R7c"):
+    """every absorb / squeeze in the verifier's scope has, as its receiver, (a reborrow of) the sponge the entry point
+    was handed - traced backwards over moves, reborrows and parameter passing only. An operation on `sponge.clone()`
+    leaves the caller's transcript where it was: the next proof of the sequence is made and checked under the same
+    state, so proofs can be replayed or swapped."""
+    g = ctx.graph(anchor)
+    f = ctx.facts
+    idx = anchor.roles.get("sponge")
+    if idx is None:
+        return 0
+    from collections import deque
+    from ..flow import MOVE
+    from .lenguard import _rev
+    root = (anchor.body.id, idx)
+    rev = _rev(g)
+    bad = None
+    n = 0
+    for bid in sorted(g.scope):
+        b = f.bodies[bid]
+        for i, t in b.calls():
+            if t.get("callee_trait") != T.SPONGE_TRAIT or not t["args"] or t["args"][0]["k"] not in ("copy", "move"):
+                continue
+            nm = (t.get("callee") or "").rsplit("::", 1)[-1]
+            if nm != "absorb" and nm not in SQUEEZES:
+                continue
+            n += 1
+            start = (bid, t["args"][0]["pl"]["l"])
+            seen = {start}
+            dq = deque([start])
+            ok = False
+            while dq and not ok:
+                x = dq.popleft()
+                if x == root:
+                    ok = True
+                    break
+                for (a, e) in rev.get(x, ()):
+                    if e.kind != DATA or e.op not in (MOVE, "field", "hof") or a in seen:
+                        continue
+                    if not (isinstance(a, tuple) and len(a) == 2 and a[0] in f.bodies):
+                        continue
+                    seen.add(a)
+                    dq.append(a)
+            if not ok:
+                bad = t["span"]
+    rep.add(rule, "%s:operates-on-the-callers-sponge" % anchor.key, bad is None,
+            "all %d transcript operations act on the sponge the entry point was handed" % n if bad is None else
+            "the transcript operation at %s acts on a sponge that is not (a reborrow of) the caller's: the caller's "
+            "transcript does not advance" % bad, bad or anchor.body.span)
+    return n
